@@ -278,17 +278,19 @@ def run_shard(ctx):
             for C in ([], rng.sample(rest, 1), rng.sample(rest, min(len(rest), rng.randint(1, 3)))):
                 query(ctx, g, gd, a, b, sorted(C), gkey)
     # very large sparse graphs (64..160 nodes)
-    for _ in range(ctx.share({"quick": 32, "thorough": 800}[ctx.tier])):
-        gd = gg.huge_sparse(rng, density=(0.6, 1.5))
+    for _ in range(ctx.share({"quick": 80, "thorough": 1200}[ctx.tier])):
+        gd = gg.huge_sparse(rng, n=rng.choice([40, 64, 65, 80, 100, 128]), density=(0.6, 1.5))
         g = gg.to_nx(gd)
         gkey = gg.key(gd)[:200] + f"|huge{len(gd['di'])}"
-        for _q in range(8):
+        for _q in range(10):
             if rng.random() < 0.5 and gd["di"]:
                 a, b = rng.choice(gd["di"] + gd["bi"])  # adjacent: never separable
             else:
                 a, b = rng.sample(gd["nodes"], 2)
             rest = [x for x in gd["nodes"] if x not in (a, b)]
-            query(ctx, g, gd, a, b, sorted(rng.sample(rest, rng.randint(0, 4))), gkey)
+            # small conditioning sets and very large ones (more than 32 named nodes in one query)
+            k = rng.randint(0, 4) if _q % 2 else rng.randint(30, min(len(rest), 70))
+            query(ctx, g, gd, a, b, sorted(rng.sample(rest, k)), gkey)
     # the separations the enumerator publishes (with and without a size limit) are separations
     for _ in range(ctx.share({"quick": 600, "thorough": 12000}[ctx.tier])):
         gd = gg.random_admg(rng, rng.randint(4, 6))
